@@ -362,6 +362,13 @@ func genC14(r *Rng, tier string) *World {
 			op.IO = io
 		case "zenv":
 			op.Front = "zenv"
+			if r.P(0.3) {
+				// one provider for the life of the process: an earlier call read another environment through it
+				w.Params["env_shared"] = 1
+				if in2, ok := rec(root); ok && in2.K == "m" && !ptrRoot {
+					ops = append(ops, Op{Kind: "parse", Schema: 0, Front: "zenv", Input: in2, Ref: 1})
+				}
+			}
 		case "gostruct":
 			op.Front = "gostruct"
 		case "mapstr":
@@ -457,6 +464,9 @@ func runC14(x *X) *Violation {
 		res := x.Exec("0:"+strconv.Itoa(i), op)
 		if res.Panic != "" {
 			return &Violation{Class: "C14/panic front=" + name, Detail: res.Panic}
+		}
+		if op.Ref == 1 {
+			continue // the earlier call through the long-lived environment provider: another record, not compared
 		}
 		src := frontSource(op)
 		var is []string
